@@ -747,7 +747,8 @@ fn check_read(case: &C06Case, strict_fabric: bool) -> Case {
             }
         }
     }
-    let mut exp_ev = expect_events(&model, rreq, &case.emits, &obs.emitted, strict_fabric, &mut st);
+    // a fabric-sensitive event of another fabric is never reported, whatever the request says
+    let mut exp_ev = expect_events(&model, rreq, &case.emits, &obs.emitted, true, &mut st);
 
     // A subscription to something that is not (surely) there / permitted may be refused as a whole.
     let mut refusable = maybe_invalid;
@@ -1917,7 +1918,7 @@ fn main() {
     run.assume("the statement is silent on (accepted either way): data-version filters that match; wildcard cluster with a concrete non-global attribute; wildcard cluster / leaf in write and invoke paths; invoke requests with several commands that repeat a path or a command reference or exceed 5 commands; the rest of a request whose timed flag and Timed request disagree or whose timeout expired (refused as a whole, without any effect, or processed as untimed); attributes marked FAB_SCOPED written by a fabric-less requester; a concrete event path whose event id does not exist on an existing cluster; a subscription containing a path that is absent / denied / matches nothing (refused as a whole or answered with statuses)");
     run.assume("a Timed interaction is valid iff the action is processed no later than timeout ms after the Timed request (d <= T acts): measured on the controller in virtual time with zero network latency");
     run.assume("group requester: a planted session pair whose device side has SessionMode::Group (the device then treats the request as group-cast: no answers); the request is sent unreliably and only the handler call log is compared; group membership tables are installed with the C05 installer");
-    run.assume("an event is fabric-sensitive iff its declaration has FAB_SENSITIVE and its payload carries a FabricIndex field (context tag 254); sub-check fabric-sensitive requires that such an event of another fabric is never reported (with or without fabric filtering); in the other sub-checks the non-fabric-filtered case is accepted either way");
+    run.assume("an event is fabric-sensitive iff its declaration has FAB_SENSITIVE and its payload carries a FabricIndex field (context tag 254); such an event of another fabric must never be reported (with or without fabric filtering), in every sub-check");
     run.assume("sessions, fabrics and ACL entries are planted directly (ReservedSession, Fabrics::add_with_post_init, Fabric::acl_add); ACL entries do not change inside a request; the cluster feature map is 0 (no auxiliary ACLs)");
     let scale = |q: u64, t: u64| run.cases(q, t);
     let (n_read, n_write, n_invoke, n_dyn, n_group, n_fs) = (scale(100_000, 4_000_000), scale(50_000, 2_500_000), scale(50_000, 2_500_000), scale(25_000, 1_000_000), scale(25_000, 1_000_000), scale(10_000, 300_000));
